@@ -33,6 +33,11 @@ pub fn res<T>(r: &Result<T, Error>) -> String {
 }
 
 pub fn open(ctx: &Ctx, options: ConnectionOptions<Auth>, tuning: ConnectionTuning) -> Result<Connection, Error> {
+    if let Some(addr) = ctx.tcp_addr() {
+        // free-running conformance run over a real socket
+        let stream = mio::net::TcpStream::connect(&addr).expect("connect to loopback broker");
+        return Connection::insecure_open_stream(stream, options, tuning);
+    }
     Connection::insecure_open_stream(ctx.stream(), options, tuning)
 }
 
